@@ -271,3 +271,70 @@ def no_reissue_while_head_wrong_rule(run, f, rid):
             run.fail(rid, b.npath + "/reissue-after-success", b.loc(ev[0][2]), "%s issues its inner call again after a call that succeeded, with the head offset that is known to be wrong (always 0): the retry starts at the beginning of the current element, so bytes of it are transferred twice" % nm, detail={"lines": sorted({e[2] for e in ev})})
         else:
             run.ok(rid, b.npath + "/no-reissue", {"states": w.visited})
+
+
+# ------------------------------------------------------------------ C17: the head offset is computed anew for every element visited
+def offset_per_element_rule(run, f, rid):
+    """The vectored wrappers walk the caller's elements in an outer loop and, for the element a transfer stopped in, shift
+    its base by an `offset` before re-issuing the call.  That offset belongs to ONE element: every round of the outer loop
+    must compute it before it can be used.  If a round can reach the shift with the value a previous round left behind (an
+    offset declared outside the loop and only updated where an element completes), an element that issued no call of its
+    own passes a stale offset on: the next request starts at the wrong byte."""
+    from analysis.flow import op_local
+    run.rule(rid, "on every path from the head of the per-element loop to the head shift, the offset that is applied is assigned first", floor=4, template="T1 (must-pass on the loop body)")
+    n = 0
+    for nm, b in nio._each(run, f, rid, nio.VEC_READ + nio.VEC_WRITE):
+        du = DefUse(b)
+        cfg = Cfg(b)
+        im = {t["dest"]["l"] for (x, t) in b.calls() if norm(t.get("callee") or "").endswith("IndexMut>::index_mut")}
+        sites = []        # (block, offset local)
+        for blk in b.blocks:
+            for i, s in enumerate(blk["stmts"]):
+                if s["k"] == "assign" and s["lhs"]["l"] in im and s["lhs"]["proj"] == ["deref"]:
+                    agg = s["rhs"] if s["rhs"]["k"] == "agg" else None
+                    if agg is None and s["rhs"]["k"] == "use" and op_local(s["rhs"]["a"]) is not None:
+                        ds0 = du.defs.get(op_local(s["rhs"]["a"]), [])
+                        if len(ds0) == 1 and ds0[0][2] == "assign" and ds0[0][3]["rhs"]["k"] == "agg":
+                            agg = ds0[0][3]["rhs"]
+                    if agg is None or "iovec" not in (agg.get("adt") or ""):
+                        continue
+                    # iov_len operand: <elem>.iov_len - offset
+                    for o in agg["ops"]:
+                        l = op_local(o)
+                        cands = list(du.defs.get(l, [])) if l is not None else []
+                        # checked arithmetic: `tmp = SubWithOverflow(a, b); x = move (tmp.0)`
+                        for d in list(cands):
+                            if d[2] == "assign" and d[3]["rhs"]["k"] == "use" and d[3]["rhs"]["a"]["k"] in ("move", "copy") and d[3]["rhs"]["a"]["p"]["proj"]:
+                                cands += du.defs.get(d[3]["rhs"]["a"]["p"]["l"], [])
+                        for d in cands:
+                            if d[2] == "assign" and d[3]["rhs"]["k"] == "binop" and d[3]["rhs"]["op"].startswith("Sub"):
+                                off = op_local(d[3]["rhs"]["b"])
+                                for _ in range(4):       # through plain copies
+                                    ds = du.defs.get(off, [])
+                                    if len(ds) == 1 and ds[0][2] == "assign" and ds[0][3]["rhs"]["k"] == "use" and ds[0][3]["rhs"]["a"]["k"] in ("copy", "move") and not ds[0][3]["rhs"]["a"]["p"]["proj"]:
+                                        off = ds[0][3]["rhs"]["a"]["p"]["l"]
+                                    else:
+                                        break
+                                if off is not None and off > b.argc:
+                                    sites.append((blk["id"], off, s.get("line")))
+        if not sites:
+            continue          # a wrapper without a head shift (nothing to carry over)
+        loops = cfg.natural_loops()
+        for (ub_, off, line) in sites:
+            n += 1
+            outer = None
+            for h, blocks in loops.items():
+                if ub_ in blocks and (outer is None or len(blocks) > len(loops[outer])):
+                    outer = h
+            if outer is None:
+                run.fail(rid, b.npath + "/offset-per-element", b.loc(line), "%s: the head shift is not inside a per-element loop" % nm)
+                continue
+            defb = {d[0] for d in du.defs.get(off, [])}
+            # must_pass: every path from the loop head to the shift passes a block that assigns the offset
+            r = cfg.reachable(set(cfg.after(outer)), avoid=defb)
+            if ub_ in r and ub_ not in defb:
+                run.fail(rid, b.npath + "/offset-per-element", b.loc(line), "%s: a round of the per-element loop can reach the head shift without assigning `%s` first: the offset left by an earlier element is applied to this one, the request starts at the wrong byte" % (nm, b.name_of(off)))
+            else:
+                run.ok(rid, b.npath + "/offset-per-element", {"offset": b.name_of(off)})
+    if n < 4:
+        run.fail(rid, "head-shift-sites", "core/src/syscall/unix/mod.rs", "only %d head-shift site(s) found in the vectored wrappers (4 counted by hand): the rule would pass vacuously" % n)
